@@ -49,18 +49,23 @@ func (repo *Repository) GetConfig(prefix string) (*Config, error) {
 	}
 
 	for len(out) > 0 {
-		keyEnd := bytes.IndexByte(out, '\n')
-		if keyEnd == -1 {
+		// Each entry is terminated by NUL. Within an entry, the key
+		// is separated from the value by LF; an entry for a key that
+		// has no value at all consists of the key only.
+		entryEnd := bytes.IndexByte(out, 0)
+		if entryEnd == -1 {
 			return nil, errors.New("invalid output from 'git config'")
 		}
-		key := string(out[:keyEnd])
-		out = out[keyEnd+1:]
-		valueEnd := bytes.IndexByte(out, 0)
-		if valueEnd == -1 {
-			return nil, errors.New("invalid output from 'git config'")
+		entryBytes := out[:entryEnd]
+		out = out[entryEnd+1:]
+
+		var key, value string
+		if keyEnd := bytes.IndexByte(entryBytes, '\n'); keyEnd == -1 {
+			key = string(entryBytes)
+		} else {
+			key = string(entryBytes[:keyEnd])
+			value = string(entryBytes[keyEnd+1:])
 		}
-		value := string(out[:valueEnd])
-		out = out[valueEnd+1:]
 
 		ok, rest := configKeyMatchesPrefix(key, prefix)
 		if !ok {
